@@ -1210,7 +1210,7 @@ def explore(tier, seed, rng, wd, only=None, only_casts=None):
         configs += [("clang++-14", ["c++14", "c++17", "c++20"][(seed + 1) % 3], "cl")]
     if _REPLAY_CONFIG:
         configs = [_REPLAY_CONFIG]
-    npts = 40 if tier == "quick" else 250
+    npts = 28 if tier == "quick" else 250     # random volume only; the directed points are always generated
     pts = {}
     for i in live:
         if "xs" in i:
